@@ -895,28 +895,18 @@ def recover_mono_premises(ctx, rep):
     if _field_writes(tr, "buffer_offset"):
         ok = False
         msgs.append("try_recover writes buffer_offset")
-    # ensure_data_read: buffer_offset = Some(current_offset()); position = 0 in the same block, offset first
-    ed = find_one(prog, "TagIterator::ensure_data_read")
-    bo = _field_writes(ed, "buffer_offset")
-    po = _field_writes(ed, "internal_buffer_position")
-    good = len(bo) == 1 and len(po) == 1 and bo[0][0] == po[0][0] and bo[0][1] < po[0][1]
-    if good:
-        rv = bo[0][2]["rv"]
-        if rv["k"] == "use" and rv["op"].get("k") in ("copy", "move") and not rv["op"]["place"]["proj"]:
-            tmp = rv["op"]["place"]["local"]
-            for b2, i2, st2 in ed.statements():
-                if st2["k"] == "assign" and st2["place"]["local"] == tmp and not st2["place"]["proj"]:
-                    rv = st2["rv"]
-        good = rv.get("agg") == "adt" and rv.get("variant") == "Some"
-        if good:
-            src = rv["ops"][0].get("place", {}).get("local")
-            good = any(t["dest"]["local"] == src and mirlib.callee_name(t) == ITER + "::current_offset" for _, t, _ in ed.calls())
-        prv = po[0][2]["rv"]
-        good = good and prv["k"] == "use" and prv["op"].get("k") == "const" and str(prv["op"].get("v")) == "0"
-        # no write to position / filled between the current_offset() call and the two assignments: same block or direct successor
-    if not good:
-        ok = False
-        msgs.append("ensure_data_read no longer rebases the cursor as (Some(current_offset()), 0)")
+    # ensure_data_read keeps buffer_offset + position unchanged: decided by abstract interpretation (see rules/flow.py, R-OFFSET-BOOK)
+    from rules import flow
+    for variant in ("None", "Some"):
+        res = flow._book_run(prog, variant)
+        cur = [c for c in res["checks"] if c["what"].startswith("the cursor's stream offset")]
+        if not cur:
+            ok = False
+            msgs.append("no exit of ensure_data_read was analysed")
+        for c in cur:
+            if not c["ok"]:
+                ok = False
+                msgs.append("ensure_data_read does not provably preserve buffer_offset + position (%s)" % c["where"])
     rep.oblige(ok, "RECOVER-MONO-PREMISE", tr.span, "premises of the monotonicity argument fail: %s" % "; ".join(msgs))
     return ok
 
